@@ -138,6 +138,7 @@ pub fn profile_for(prop: &str, tier: &str) -> Profile {
             p.fluct_pct = 40;
             p.macro_pct = 25;
             if prop == "C07" {
+                p.exact_edge_liq_pct = 12;
                 p.feed_real_pct = 30;
             }
         }
